@@ -1,6 +1,6 @@
 /-
 L-triple: three sessions side by side (the product of `Proofs/Pair.lean` for three peers, under ONE
-choice of ghosts). A session moves by a local input, a cell write, a call, or the arrival of the
+choice of ghosts). A session moves by a local input, a cell write, a call, a `set_input_delay` call, or the arrival of the
 next frame of a player one of the other two owns, read off that owner's ring. Every player is owned
 by at most one session (`Own`, preserved because handles never change). Invariant: the three pair
 invariants for one ghost per session. Conclusion (`triple_agree`): any two of the three games agree,
@@ -20,6 +20,9 @@ inductive TMove : (P2P × TLState) → (P2P × TLState) → (P2P × TLState) →
       TMove (s, t) b c (s.userExecute sv, t)
   | tick (s s' : P2P) (t : TLState) (b c : P2P × TLState) (now : Nat) (reqs' : List Request) :
       s.advanceRollbackFrame now [] = .ok (s', reqs') → TMove (s, t) b c (s', execReqs t reqs')
+  | setDelay (s s' : P2P) (t : TLState) (b c : P2P × TLState) (now handle delay : Nat) (r : Except GgrsError Unit) :
+      handle ∈ s.localPlayerHandles → handle < s.sync.queues.length →
+      s.setInputDelay now handle delay = .ok (s', r) → TMove (s, t) b c (s', t)
   | arrive (s s' : P2P) (t : TLState) (b c : P2P × TLState) (now : Nat) (f : Nat) (v : Input) (player : Nat)
       (handles : List Nat) (addr : Nat) :
       player ∈ b.1.localPlayerHandles → player ∉ s.localPlayerHandles → player ∉ c.1.localPlayerHandles →
@@ -79,6 +82,29 @@ theorem tmove_inv (a b c a' : P2P × TLState) (ghA ghB ghC : Ghost) (hb : PairIn
     have kc := linkrel_keep s s' c.1 ghA gh' ghC hlp hc.ab hc.ba (fun p _ hn => hoth p hn) hpre'
     exact ⟨gh', ⟨SessInv_rebase s' gh' t reqs' hinv', hg', hb.sb, hb.gb, kb.1, kb.2⟩,
       ⟨SessInv_rebase s' gh' t reqs' hinv', hg', hc.sb, hc.gb, kc.1, kc.2⟩⟩
+  | setDelay s s' t b c now handle delay r hloc hp hset =>
+    obtain ⟨gh', hinv', hg', hcase, _, _, _, _, _, hh, _⟩ := setInputDelay_spec s s' ghA t [] now handle delay r hb.sa hb.ga hloc hp hset
+    have hlp : s'.localPlayerHandles = s.localPlayerHandles := by unfold P2P.localPlayerHandles; rw [hh]
+    have hsp : ∀ p, (p ≠ handle → gh'.specs p = ghA.specs p) ∧ PrefixOf (ghA.specs p).vals (gh'.specs p).vals := by
+      intro p
+      rcases hcase with he | he
+      · rw [he]; exact ⟨fun _ => rfl, PrefixOf.refl _⟩
+      · rw [he]
+        unfold ghDelay
+        by_cases hpe : p = handle
+        · subst hpe
+          refine ⟨fun hne => absurd rfl hne, ?_⟩
+          simp only [if_true]
+          obtain ⟨k, hv, _, _⟩ := setDelay_facts (ghA.specs p) delay
+          rw [hv]
+          exact prefixOf_append _ _
+        · simp only [hpe, if_false]
+          exact ⟨fun _ => trivial, PrefixOf.refl _⟩
+    have hun : ∀ (x : P2P) p, p ∈ x.localPlayerHandles → p ∉ s.localPlayerHandles → gh'.specs p = ghA.specs p :=
+      fun _ p _ hn => (hsp p).1 (fun e => hn (e ▸ hloc))
+    have kb := linkrel_keep s s' b.1 ghA gh' ghB hlp hb.ab hb.ba (hun b.1) (fun p _ => (hsp p).2)
+    have kc := linkrel_keep s s' c.1 ghA gh' ghC hlp hc.ab hc.ba (hun c.1) (fun p _ => (hsp p).2)
+    exact ⟨gh', ⟨hinv', hg', hb.sb, hb.gb, kb.1, kb.2⟩, ⟨hinv', hg', hc.sb, hc.gb, kc.1, kc.2⟩⟩
   | arrive s s' t b c now f v player handles addr hown hnl hnc hpb hps hnext hle hwin hslot hev =>
     obtain ⟨gh', hinv', hg', _, _, hh, hsp⟩ :=
       glue_remoteInputX s s' ghA t now ⟨(f : Int), v⟩ player handles addr hb.sa hb.ga hnl (Int.natCast_nonneg _) hev
